@@ -18,7 +18,6 @@
 (***************************************************************************)
 EXTENDS Num
 
-S18 == <<0, 0, 0, 0, 0, 0, 1>>                   \* 10^18, the usual fixed-point scale
 Tol3e7 == <<0, 0, 0, 300>>                       \* 3 * 10^-7 at scale 10^18
 N8 == FromInt(255)
 N16 == FromInt(65535)
@@ -105,21 +104,24 @@ HalfLo(e, n) == IF e = 0 THEN <<>> ELSE Monus(Mul(FromInt(2 * e - 1), T21), From
 HalfHi(e, n) == Add(Mul(FromInt(2 * e + 1), T21), FromInt(n))
 HalfDen(n) == Mul(FromInt(n), T22)
 
-\* window bounds at scale Sc = 10^18 * 2 steps * 2^22
-WinScale(steps) == Mul(Mul(S18, FromInt(2 * steps)), T22)
-WinHi(X, steps) == Mul(Add(MulSmall(X, 2 * steps), S18), T22p1)                  \* (x + h)(1 + 2^-22)
-WinLo(X, steps) == Monus(Mul(Monus(MulSmall(X, 2 * steps), S18), T22),
-                         Add(MulSmall(X, 2 * steps), S18))                        \* (x - h) - 2^-22 (x + h)
+\* window bounds for an input x = Xn / Xd, at scale Sc = Xd * 2 steps * 2^22
+WinScaleR(Xd, steps) == Mul(Mul(Xd, FromInt(2 * steps)), T22)
+WinHiR(Xn, Xd, steps) == Mul(Add(MulSmall(Xn, 2 * steps), Xd), T22p1)                 \* (x + h)(1 + 2^-22)
+WinLoR(Xn, Xd, steps) == Monus(Mul(Monus(MulSmall(Xn, 2 * steps), Xd), T22),
+                               Add(MulSmall(Xn, 2 * steps), Xd))                       \* (x - h) - 2^-22 (x + h)
 
-\* first conjunct at an input known to be <= Xhi/10^18; second at one >= Xlo/10^18
-EncLowOK(curve, n, steps, e, Xhi) ==
-    LET c == HalfLo(e, n)  V == WinHi(Xhi, steps)  Sc == WinScale(steps) IN
+\* first conjunct at an input known to be <= Xn/Xd; second at one >= Xn/Xd
+EncLowOKR(curve, n, steps, e, Xn, Xd) ==
+    LET c == HalfLo(e, n)  V == WinHiR(Xn, Xd, steps)  Sc == WinScaleR(Xd, steps) IN
     IF c = <<>> THEN TRUE
     ELSE IF LE(Sc, V) THEN LE(c, HalfDen(n))              \* EOTF(u) <= 1  <=>  u <= 1
     ELSE EOTFLe(curve, c, HalfDen(n), V, Sc)
-EncHighOK(curve, n, steps, e, Xlo) ==
-    LET V == WinLo(Xlo, steps) IN
-    IF V = <<>> THEN TRUE ELSE EOTFGe(curve, HalfHi(e, n), HalfDen(n), V, WinScale(steps))
+EncHighOKR(curve, n, steps, e, Xn, Xd) ==
+    LET V == WinLoR(Xn, Xd, steps) IN
+    IF V = <<>> \/ e = n THEN TRUE       \* nothing to show below the window / the maximum code cannot be too low
+    ELSE EOTFGe(curve, HalfHi(e, n), HalfDen(n), V, WinScaleR(Xd, steps))
+EncLowOK(curve, n, steps, e, Xhi) == EncLowOKR(curve, n, steps, e, Xhi, S18)
+EncHighOK(curve, n, steps, e, Xlo) == EncHighOKR(curve, n, steps, e, Xlo, S18)
 
 \* plain quantiser: |out - n x| <= 1/2 + n 2^-22, at scale 10^18 * 2^23
 QuantLowOK(n, out, Xhi) ==   \* out - n x <= ...   i.e.  2^23 out S <= 2^23 n X + 2^22 S + 2 n S
